@@ -34,7 +34,29 @@ def _universe():
                         subkeys=[('cv25519a', {KeyFlags.EncryptCommunications}), ('ecdsa_p256b', {KeyFlags.Sign})])
     # A2: another key with A's identity, created in the very same second, same half
     ka2, _ = K.pgpy_cert('ecdsa_p256b', uid=pgpy.PGPUID.new('Same Name', comment='same comment', email='same@example.org'))
-    return collections.OrderedDict([('A', ka.pubkey), ('B', kb.pubkey), ('C', kc), ('Dpub', kd.pubkey), ('Dsec', kd), ('E', ke), ('A2', ka2.pubkey), ('Epub', ke.pubkey)]), (ka, kb, kc, kd, ke, ka2)
+    # S1, S2: two different keys whose fingerprints end in the same 32 bits (same short id) - found by a birthday search over creation times
+    t1, t2 = _short_id_collision('rsa1024a', 'rsa1024b')
+    ks1, _ = K.pgpy_cert('rsa1024a', uid=pgpy.PGPUID.new('Short One', email='s1@example.org'), created=t1)
+    ks2, _ = K.pgpy_cert('rsa1024b', uid=pgpy.PGPUID.new('Short Two', email='s2@example.org'), created=t2)
+    return collections.OrderedDict([('A', ka.pubkey), ('B', kb.pubkey), ('C', kc), ('Dpub', kd.pubkey), ('Dsec', kd), ('E', ke), ('A2', ka2.pubkey), ('Epub', ke.pubkey),
+                                    ('S1', ks1.pubkey), ('S2', ks2.pubkey)]), (ka, kb, kc, kd, ke, ka2, ks1, ks2)
+
+
+def _short_id_collision(n1, n2):
+    from refpgp import keys as rkeys
+    # the pair found by the search below for the fixture keys rsa1024a / rsa1024b (checked; searched again if the fixtures ever change)
+    t1, t2 = 1500093282, 1501035900
+    if rkeys.fingerprint(K.raw(n1, t1))[-4:] == rkeys.fingerprint(K.raw(n2, t2))[-4:]:
+        return t1, t2
+    seen = {}
+    for i in range(200000):
+        seen[rkeys.fingerprint(K.raw(n1, K.T0 + i))[-4:]] = K.T0 + i
+    for j in range(400000):
+        t = K.T0 + 1000000 + j
+        f = rkeys.fingerprint(K.raw(n2, t))[-4:]
+        if f in seen:
+            return seen[f], t
+    raise RuntimeError('no short-id collision found')
 
 
 def idents(key):
@@ -102,7 +124,7 @@ class Prop(object):
     def units(self, tier, seed):
         u = []
         # (a) the clusters of keys that share identifiers, each explored to closure (the depth is only a safety cap)
-        for cl in (['A', 'B', 'C'], ['Dpub', 'Dsec', 'A'], ['A', 'B', 'E'], ['A', 'A2', 'B'], ['E', 'Epub', 'Dsec']):
+        for cl in (['A', 'B', 'C'], ['Dpub', 'Dsec', 'A'], ['A', 'B', 'E'], ['A', 'A2', 'B'], ['E', 'Epub', 'Dsec'], ['S1', 'S2', 'A']):
             for i in range(len(cl)):
                 u.append(('bfs', {'first': i, 'blobs': False, 'depth': 14, 'names': cl}))
         # (b) the whole universe, depth-bounded
